@@ -13,7 +13,25 @@ import (
 type Lit struct {
 	V   ssa.Value
 	Neg bool
+	// T, when set, is the literal's term: the literal was produced by substituting the arguments of a call into the
+	// summary of the callee (see Expander) and V is the callee's value, kept for positions only.
+	T *Term
 }
+
+// TermOf returns the literal's term.
+func (l Lit) TermOf(o *Origins) *Term {
+	if l.T != nil {
+		return l.T
+	}
+	return o.Of(l.V)
+}
+
+// Expander, when set, returns for a literal a condition that the literal implies (for "helper(args) returned
+// true / false / nil / non-nil": the helper's return condition with the arguments substituted).
+var Expander func(l Lit) (DNF, bool)
+
+// AndLit conjoins one literal, named by atom key k, to every conjunct of d.
+func AndLit(d DNF, k string, l Lit) DNF { return d.and(k, l) }
 
 // Conj is a conjunction of literals keyed by atom key (see Reach.KeyOf): two SSA values that
 // denote the same stable expression (e.g. two loads of opts.Rule compared with the same constant)
@@ -33,6 +51,9 @@ type Reach struct {
 	KeyOf func(ssa.Value) string
 	Err   error
 }
+
+// Key returns the atom key of a condition value.
+func (r *Reach) Key(v ssa.Value) string { return r.key(v) }
 
 func (r *Reach) key(v ssa.Value) string {
 	if r.KeyOf != nil {
@@ -303,7 +324,9 @@ type LitMatcher func(l Lit) bool
 
 // Implies reports whether every way of reaching (every conjunct of d) contains a literal accepted
 // by at least one of the matchers (i.e. d ⇒ m1 ∨ m2 ∨ …). An unreachable block satisfies everything.
-func (d DNF) Implies(ms ...LitMatcher) bool {
+func (d DNF) Implies(ms ...LitMatcher) bool { return d.implies(ms, 3) }
+
+func (d DNF) implies(ms []LitMatcher, depth int) bool {
 	for _, c := range d {
 		ok := false
 	lits:
@@ -312,6 +335,25 @@ func (d DNF) Implies(ms ...LitMatcher) bool {
 				if m(l) {
 					ok = true
 					break lits
+				}
+			}
+		}
+		if !ok && depth > 0 && Expander != nil {
+			// a literal of the conjunct may stand for a helper's verdict: c ⇒ l ⇒ summary(l); the conjunct is fine
+			// when every way the helper can give that verdict (consistent with c) establishes the fact
+			keys := make([]string, 0, len(c))
+			for k := range c {
+				keys = append(keys, k)
+			}
+			sort.Strings(keys)
+			for _, k := range keys {
+				s, has := Expander(c[k])
+				if !has {
+					continue
+				}
+				if And(DNF{c}, s).implies(ms, depth-1) {
+					ok = true
+					break
 				}
 			}
 		}
@@ -331,7 +373,7 @@ func (d DNF) Describe(o *Origins) string {
 	for _, c := range d {
 		var ls []string
 		for _, l := range c {
-			s := o.Of(l.V).String()
+			s := l.TermOf(o).String()
 			if l.Neg {
 				s = "¬" + s
 			}
